@@ -182,15 +182,38 @@ theorem initParser_G (nroot fuel : Nat) (A : AllSpecs T nroot fuel) (o : Options
       · exact hme _ _ nm h'
       · exact hme _ _ nm h'
 
-theorem initialState_G (nroot : Nat) (o : Options) (multi : Bool) (fs : FS) :
+theorem initialState_G (hw : T.WFInv) (nroot : Nat) (o : Options) (multi : Bool) (fs : FS) :
     G T nroot (initialState T o multi fs) := by
-  refine { flows := ?_, macros := ?_, envs := ?_, gloss := ?_, root := ?_, inFrame := ?_ }
-  · intro _ e he; simp [initialState] at he
-  · intro m hm; simp [initialState] at hm
-  · intro m hm; simp [initialState] at hm
-  · intro e he; simp [initialState] at he
-  · intro h; simp [initialState] at h
-  · simp [initialState]
+  have hflows : (initialState T o multi fs).foreign = false →
+      ∀ e ∈ (initialState T o multi fs).extracted, OL T nroot e := by
+    intro _ e he; simp [initialState] at he
+  have hmac : ∀ m ∈ (initialState T o multi fs).macros ++ (initialState T o multi fs).envs,
+      macroToksOk T m = true := by
+    intro m hm; simp [initialState] at hm
+  have henv : ∀ e ∈ (initialState T o multi fs).envs, envOk T e = true := by
+    intro m hm; simp [initialState] at hm
+  have hgl : glossOk T (initialState T o multi fs).glossary := by
+    intro e he; simp [initialState] at he
+  have hitems : (initialState T o multi fs).itemStack ≠ [] := by simp [initialState]
+  have hlangs : ∀ e ∈ (initialState T o multi fs).langStack, (settingsOf T e.1).isSome = true := by
+    intro e he
+    simp only [initialState, List.mem_cons, List.not_mem_nil, or_false] at he
+    rw [he]
+    exact settingsOf_checkLang T hw _
+  have hrots1 : ∀ l ∈ T.langs, (rotOf (initialState T o multi fs) l.code).isSome = true := by
+    intro l hl
+    simp only [rotOf, initialState, List.find?_map, Option.isSome_map, List.find?_isSome]
+    exact ⟨l, hl, by simp [Function.comp]⟩
+  have hrots2 : ∀ r ∈ (initialState T o multi fs).rots, r.inl ≠ [] ∧ r.disp ≠ [] ∧ r.chg ≠ [] := by
+    intro r hr
+    simp only [initialState, List.mem_map] at hr
+    obtain ⟨l, hl, rfl⟩ := hr
+    have h := hw.langs_ok l hl
+    exact ⟨h.1, h.2.1, h.2.2.1⟩
+  exact { flows := hflows, macros := hmac, envs := henv, gloss := hgl, items := hitems, langs := hlangs,
+          rots := ⟨hrots1, hrots2⟩,
+          root := fun h => by simp [initialState] at h,
+          inFrame := by simp [initialState] }
 
 theorem filterSetToks_lang_txt (m p : Nat) (ts : List Tok) (h : OL T m ts) :
     ∀ t ∈ filterSetToks ts p true, t.txt = [] := by
@@ -246,11 +269,13 @@ theorem parse_eq (fuel : Nat) (latex define : Str) (extract : List Str) :
 theorem parseRest_G (fuel : Nat) (latex define : Str) (A : AllSpecs T latex.length fuel)
     (extr : List Str) (s1 : PState) (hg1 : G T latex.length s1) :
     Post (parseRest T fuel latex define extr s1)
-      (fun toks st' => st'.foreign = false → ∀ t ∈ toks, t.txt ≠ [] → TokInRange latex.length t) := by
+      (fun toks st' => (st'.foreign = false → ∀ t ∈ toks, t.txt ≠ [] → TokInRange latex.length t) ∧
+        G0 T latex.length st') := by
   unfold parseRest
   apply Post_bind _ _ _ (Q := fun _ s => G T latex.length s)
   · apply Post_modify
     exact { flows := fun _ e he => (by cases he), macros := hg1.macros, envs := hg1.envs, gloss := hg1.gloss,
+            items := hg1.items, langs := hg1.langs, rots := hg1.rots,
             root := hg1.root, inFrame := hg1.inFrame }
   intro _ s2 hg2
   apply Post_bind _ _ _ (Q := fun m0 s => G0 T latex.length s ∧ ∀ t ∈ m0, t.txt = [])
@@ -266,7 +291,8 @@ theorem parseRest_G (fuel : Nat) (latex define : Str) (A : AllSpecs T latex.leng
   intro main0 s3 ⟨hg3, hm0⟩
   apply Post_bind _ _ _ (Q := fun _ s => G0 T latex.length s ∧ s.nest = 0)
   · apply Post_modify
-    exact ⟨{ flows := fun _ e he => (by cases he), macros := hg3.macros, envs := hg3.envs, gloss := hg3.gloss }, rfl⟩
+    exact ⟨{ flows := fun _ e he => (by cases he), macros := hg3.macros, envs := hg3.envs, gloss := hg3.gloss,
+             items := hg3.items, langs := hg3.langs, rots := hg3.rots }, rfl⟩
   intro _ s4 ⟨hg4, hn4⟩
   apply Post_bind _ _ _ (Q := fun r s => G0 T latex.length s ∧ OL T latex.length r)
   · exact Post_mono _ _ _ (A.work latex s4 hg4 (fun _ => rfl) (fun h => by omega))
@@ -277,6 +303,7 @@ theorem parseRest_G (fuel : Nat) (latex define : Str) (A : AllSpecs T latex.leng
   intro st5 s6 ⟨h1, h2⟩
   subst h1; subst h2
   apply Post_pure
+  refine ⟨?_, hg5⟩
   intro hf t ht hne
   rcases List.mem_append.1 ht with ht | ht
   · split at ht
@@ -291,12 +318,13 @@ theorem parseRest_G (fuel : Nat) (latex define : Str) (A : AllSpecs T latex.leng
 theorem parse_G (hw : T.WFInv) (fuel : Nat) (latex define : Str) (A : AllSpecs T latex.length fuel)
     (extr : List Str) (st : PState) (hg : G T latex.length st) :
     Post (parse T fuel latex define extr st)
-      (fun toks st' => st'.foreign = false → ∀ t ∈ toks, t.txt ≠ [] → TokInRange latex.length t) := by
+      (fun toks st' => (st'.foreign = false → ∀ t ∈ toks, t.txt ≠ [] → TokInRange latex.length t) ∧
+        G0 T latex.length st') := by
   rw [parse_eq]
   split
   · apply Post_bind _ _ _ (Q := fun _ s => G T latex.length s)
     · apply Post_modify
-      exact { toG0 := initExtractions_G0 T hw _ _ _ hg.toG0, root := hg.root, inFrame := hg.inFrame }
+      exact { toG0 := initExtractions_G0 T hw hw.decimal_ascii _ _ _ hg.toG0, root := hg.root, inFrame := hg.inFrame }
     · intro _ s1 hg1
       exact parseRest_G T fuel latex define A extr s1 hg1
   · exact parseRest_G T fuel latex define A extr st hg
@@ -307,12 +335,13 @@ theorem parse_G (hw : T.WFInv) (fuel : Nat) (latex define : Str) (A : AllSpecs T
 theorem parse_inRange (hw : T.WFInv) (fuel : Nat) (latex : Str) (o : Options) (multi : Bool) (fs : FS)
     (extr : List Str) :
     Post ((do initParser T fuel o; parse T fuel latex o.defs extr) (initialState T o multi fs))
-      (fun toks st' => st'.foreign = false → ∀ t ∈ toks, t.txt ≠ [] → TokInRange latex.length t) := by
+      (fun toks st' => (st'.foreign = false → ∀ t ∈ toks, t.txt ≠ [] → TokInRange latex.length t) ∧
+        G0 T latex.length st') := by
   have A := allSpecs T hw latex.length fuel
   apply Post_bind _ _ _ (Q := fun _ s => G T latex.length s)
   · exact initParser_G T latex.length fuel A o (builtin_ok T hw o) (getPackages_ok T hw)
       (builtin_envOk T hw o) (getPackages_envOk T hw) _
-      (initialState_G T latex.length o multi fs)
+      (initialState_G T hw latex.length o multi fs)
   · intro _ s hg
     exact parse_G T hw fuel latex o.defs A extr s hg
 
